@@ -155,7 +155,7 @@ PROPS = {
                     "x op= e / x++ evaluate the operands of x twice by construction of the parser (documented exception)"],
     },
     "C09": {
-        "gens": [],
+        "gens": ["StmtFlow"],
         "lean": "Anko.Props.C09",
         "streams": [{"name": "errors", "n_quick": 2500, "n_thorough": 40000},
                     {"name": "vm", "n_quick": 2000, "n_thorough": 40000}],
@@ -164,7 +164,7 @@ PROPS = {
         "assumptions": ["fragment F0", "`return` is not placed inside try blocks (finding #13 belongs to C08)"],
     },
     "C08": {
-        "gens": [],
+        "gens": ["StmtFlow"],
         "lean": "Anko.Props.C08",
         "streams": [{"name": "control", "n_quick": 2500, "n_thorough": 40000},
                     {"name": "vm", "n_quick": 2000, "n_thorough": 40000}],
